@@ -45,16 +45,16 @@ type Options struct {
 }
 
 type rewriter struct {
-	fset   *token.FileSet
-	info   *types.Info
-	pkg    *types.Package
-	file   *ast.File
-	rel    string
-	counts map[string]int
-	used   bool
-	nvar   int
-	skip   map[ast.Node]bool
-	errs   []string
+	fset    *token.FileSet
+	info    *types.Info
+	pkg     *types.Package
+	file    *ast.File
+	rel     string
+	counts  map[string]int
+	used    bool
+	nvar    int
+	skip    map[ast.Node]bool
+	errs    []string
 	preempt bool
 }
 
@@ -349,16 +349,16 @@ var methodRules = map[string]struct {
 	fn   string
 	site bool
 }{
-	"(*sync.Mutex).Lock":      {"Lock", true},
-	"(*sync.Mutex).Unlock":    {"Unlock", false},
-	"(*sync.RWMutex).Lock":    {"WLock", true},
-	"(*sync.RWMutex).Unlock":  {"WUnlock", false},
-	"(*sync.RWMutex).RLock":   {"RLock", true},
-	"(*sync.RWMutex).RUnlock": {"RUnlock", false},
-	"(*sync.Cond).Wait":       {"CondWait", true},
-	"(*sync.Cond).Signal":     {"CondSignal", false},
-	"(*sync.Cond).Broadcast":  {"CondBroadcast", false},
-	"(*sync.WaitGroup).Wait":  {"WaitGroupWait", true},
+	"(*sync.Mutex).Lock":                       {"Lock", true},
+	"(*sync.Mutex).Unlock":                     {"Unlock", false},
+	"(*sync.RWMutex).Lock":                     {"WLock", true},
+	"(*sync.RWMutex).Unlock":                   {"WUnlock", false},
+	"(*sync.RWMutex).RLock":                    {"RLock", true},
+	"(*sync.RWMutex).RUnlock":                  {"RUnlock", false},
+	"(*sync.Cond).Wait":                        {"CondWait", true},
+	"(*sync.Cond).Signal":                      {"CondSignal", false},
+	"(*sync.Cond).Broadcast":                   {"CondBroadcast", false},
+	"(*sync.WaitGroup).Wait":                   {"WaitGroupWait", true},
 	"(*golang.org/x/sync/errgroup.Group).Wait": {"ErrgroupWait", true},
 }
 
